@@ -1285,17 +1285,32 @@ class Engine:
     def e_JoinedStr(self, e, fr):
         parts = []
         conc = True
+        tpl, fargs, plain = [], [], True
         for p in e.values:
             if isinstance(p, ast.Constant):
                 parts.append(p.value)
+                tpl.append(str(p.value).replace("{", "{{").replace("}", "}}"))
             else:
                 v = self.eval(p.value, fr)
+                spec = None
+                if p.format_spec is not None:
+                    if all(isinstance(x, ast.Constant) for x in p.format_spec.values):
+                        spec = "".join(str(x.value) for x in p.format_spec.values)
+                    else:
+                        plain = False
+                tpl.append("{" + ("!" + chr(p.conversion) if p.conversion != -1 else "") + (":" + spec if spec else "") + "}")
+                fargs.append(v)
                 if isinstance(v, (str, int)) and not isinstance(v, bool) and p.conversion == -1 and p.format_spec is None:
                     parts.append(str(v))
                 else:
                     conc = False
         if conc:
             return "".join(parts)
+        # an f-string is the same formatting as str.format on the equivalent template with its expressions as positional
+        # arguments: a unit that observes formatting (ghost hook `str_format`) sees it in that form
+        h = self.st.ghost.get("str_format") if self.st is not None else None
+        if h is not None and plain:
+            return h(self, "".join(tpl), fargs, {})
         return Opq(tag="str")
 
     def e_Lambda(self, e, fr):
